@@ -218,6 +218,15 @@ def run_case(pattern, lx, prov, universe, assign, req):
         return fail("must-raise", "must raise but returned")
     if st == "raised":
         return fail("raised", f"raised {got}")
+    if not (op == "cumsum" and style == "inplace"):
+        # second use of the same request on the same object: the answer must not change
+        st_b, got_b = attempt(call)
+        if st_b == "raised":
+            return fail("raised", f"the same request raised on its second use: {got_b}")
+        st_c, obs_b = attempt(lambda: observe.arr(got_b))
+        st_d, obs_a = attempt(lambda: observe.arr(got))
+        if st_c == "ok" and st_d == "ok" and (obs_a.letters != obs_b.letters or any(not R.close(v, obs_b.data.get(k, float("nan")), 0.0) for k, v in obs_a.data.items())):
+            return fail("second-use", "the same request on the same array gave a different answer the second time")
     st2, obs = attempt(lambda: observe.arr(got))
     if st2 == "raised":
         return fail("malformed", f"result malformed: {obs}")
